@@ -10,6 +10,7 @@ CONSTANTS
   INF = 1000000
 VIEW View
 INVARIANT InvFlags
+INVARIANT InvBd
 INVARIANT InvCount
 INVARIANT InvInsertOnly
 INVARIANT InvMirror
